@@ -565,6 +565,9 @@ def run_share_surface(desc, ctx):
         # the same surface in very small / large units: the shares follow the area ratios, which have no unit
         V = V * unit_len
         ctx.cls("share_surface:units:%g" % unit_len)
+        # reference normals and their conditioning are those of the coordinates the library receives (the rescaling rounds every coordinate,
+        # which turns the normal of a needle-like triangle by more than its conditioning at the original coordinates allows for)
+        unit, _, cond = R.tri_normals(V, F)
     if random.Random(desc["seed"] ^ 0x4321).random() < 0.5:
         import mouette as M
         ctx.cls("share:history:measured_then_deformed")
